@@ -27,12 +27,25 @@
 #define VERIF_NWORDS ((VERIF_NA * (VERIF_NB > 0 ? VERIF_NB : 1) + 63) / 64)
 u64 VERIF_W[VERIF_NWORDS];   /* nondeterministic 0/1 product table, 64 entries per word (never written) */
 
-static inline u64 VT_bad(void) { VERIF_illtyped = 1; return nondet_u64(); }
+/* An operation outside the table yields a *poison* value (own class: bit 31 clear, bit 18 set, low 18 bits 0x6aaaa & mask)
+   and sets the soft flag VERIF_softtyped.  Poison propagates through every operation and can never equal a
+   specified output value, so a poison value that reaches an output fails that element's postcondition; a poison or
+   data value that reaches a *control* position (compare, branch, address, shift amount, division, conversion) sets the
+   hard flag VERIF_illtyped, whose negation is an obligation of every ATOMS contract.  Dead lanes (e.g. the unused upper
+   lanes of a horizontal reduction on undef) may therefore be ill-typed without harm. */
+int VERIF_softtyped = 0;
+#define POISON_MARK 0x6aaaau
+static inline u64 VT_bad(void) { VERIF_softtyped = 1; return ((nondet_u64() & 0x7ff80000ULL) | POISON_MARK); }
+static inline u64 VT_hard(void) { VERIF_illtyped = 1; VERIF_softtyped = 1; return ((nondet_u64() & 0x7ff80000ULL) | POISON_MARK); }
 static inline int VT_ctl(u64 x) { return x < 0x10000ULL || x >= 0xffffffffffff0000ULL; }
 static inline int VT_ctl32(u32 x) { return x < 0x10000u || x >= 0xffff0000u; }
 static inline int VT_atom(u64 x) { return x >= ATOM_A0 && x < ATOM_END; }
 static inline int VT_prod(u64 x) { return (x & PROD_MASK) == 0; }
 static inline u64 VT_sx32(u32 x) { return (u64)(s64)(s32)x; }
+/* undef / poison lanes: an arbitrary value of the product class (keeps dead lanes well-typed; if it reaches an output
+   or a control position the postcondition / the control typing fails) */
+static inline u64 VT_undef_64(void) { return nondet_u64() & ~(u64)PROD_MASK; }
+static inline u32 VT_undef_32(void) { return nondet_u32() & ~(u32)PROD_MASK; }
 
 /* w-bit classification: cls 64 sees the full carrier, cls 32 sees a sign-extended 32-bit one */
 static inline u64 VT_mul(u64 x, u64 y, int w) {
@@ -53,7 +66,7 @@ static inline u64 VT_mul(u64 x, u64 y, int w) {
 static inline u64 VT_add(u64 x, u64 y, int sub) {
   u64 r = sub ? x - y : x + y;
   int ok = (VT_prod(x) && VT_prod(y)) || (VT_ctl(x) && VT_ctl(y) && VT_ctl(r)) || y == 0 || (x == 0 && !sub);
-  if (!ok) VERIF_illtyped = 1;
+  if (!ok) return VT_bad();
   return r;
 }
 #define IMUL_64(x, y) VT_mul((x), (y), 64)
@@ -72,7 +85,7 @@ static inline u32 VT_mul32(u32 x, u32 y) {
 static inline u32 VT_add32(u32 x, u32 y, int sub) {
   u32 r = sub ? x - y : x + y;
   int ok = (VT_prod(x) && VT_prod(y)) || (VT_ctl32(x) && VT_ctl32(y) && VT_ctl32(r)) || y == 0 || (x == 0 && !sub);
-  if (!ok) VERIF_illtyped = 1;
+  if (!ok) return (u32)VT_bad();
   return r;
 }
 #define IMUL_32(x, y) VT_mul32((x), (y))
@@ -80,8 +93,8 @@ static inline u32 VT_add32(u32 x, u32 y, int sub) {
 #define ISUB_32(x, y) VT_add32((x), (y), 1)
 
 /* operands that must be control values */
-static inline u64 CTL_64(u64 x) { if (!VT_ctl(x)) return VT_bad(); return x; }
-static inline u32 CTL_32(u32 x) { if (!VT_ctl32(x)) return (u32)VT_bad(); return x; }
+static inline u64 CTL_64(u64 x) { if (!VT_ctl(x)) return VT_hard(); return x; }
+static inline u32 CTL_32(u32 x) { if (!VT_ctl32(x)) return (u32)VT_hard(); return x; }
 /* control, atom or zero (sign extension keeps the id) */
 static inline u64 CTLA_64(u64 x) { if (!VT_ctl(x) && !VT_atom(x)) return VT_bad(); return x; }
 static inline u32 CTLA_32(u32 x) { if (!VT_ctl32(x) && !VT_atom(x)) return (u32)VT_bad(); return x; }
@@ -199,8 +212,8 @@ static inline u32 ILSHR_32(u32 x, u32 n) {
 #define FSQRT_64(x) VT_bad()
 /* float comparisons: only between control values (e.g. a constant alpha against 1) */
 #define VT_FCMP(name, op) \
-  static inline u8 FCMP_##name##_32(u32 x, u32 y) { if (!VT_ctl32(x) || !VT_ctl32(y)) return (u8)(VT_bad() & 1); return (u8)((s32)x op (s32)y); } \
-  static inline u8 FCMP_##name##_64(u64 x, u64 y) { if (!VT_ctl(x) || !VT_ctl(y)) return (u8)(VT_bad() & 1); return (u8)((s64)x op (s64)y); }
+  static inline u8 FCMP_##name##_32(u32 x, u32 y) { if (!VT_ctl32(x) || !VT_ctl32(y)) return (u8)(VT_hard() & 1); return (u8)((s32)x op (s32)y); } \
+  static inline u8 FCMP_##name##_64(u64 x, u64 y) { if (!VT_ctl(x) || !VT_ctl(y)) return (u8)(VT_hard() & 1); return (u8)((s64)x op (s64)y); }
 VT_FCMP(oeq, ==) VT_FCMP(ueq, ==) VT_FCMP(one, !=) VT_FCMP(une, !=) VT_FCMP(olt, <) VT_FCMP(ult, <)
 VT_FCMP(ole, <=) VT_FCMP(ule, <=) VT_FCMP(ogt, >) VT_FCMP(ugt, >) VT_FCMP(oge, >=) VT_FCMP(uge, >=)
 static inline u8 FCMP_ord_32(u32 x, u32 y) { return 1; }
